@@ -680,8 +680,71 @@ def b_mixin(tier, seed):
     return b
 
 
+def b_mixed_types(tier):
+    """Programs with integer-typed and double-typed variables side by side: real-valued operations on integer operands (negative and fractional powers, pow with a variable
+    exponent, sqrt of an integer sum) must not turn into integer arithmetic."""
+    import math
+    import pymbolic.primitives as p
+    from pymbolic.mapper.c_code import CCodeMapper
+    from pymbolic.mapper.evaluator import EvaluationMapper
+    b = BoundedRun("mixed-integer-double", rule="C functions with parameters `long long a, b` and `double x`: powers of integer-valued bases with exponents -1, -2, 0.5, x and with the integer "
+                   "variable as exponent of a double, sqrt of integer sums, inside sums and products with x, hoisted through wrappers: the value of the compiled program equals the "
+                   "evaluator's to 1e-12 relative on a, b in 1..4, x in {0.5, 2.25}", bound="22 expressions x 32 environments", functions=["CCodeMapper.map_power", "CCodeMapper.map_call", "CCodeMapper.map_common_subexpression"])
+    a, b_, x, sq = p.Variable("a"), p.Variable("b"), p.Variable("x"), p.Variable("sqrt")
+    CSE = p.CommonSubexpression
+    exprs = [p.Sum((x, p.Power(a, -1))), p.Product((x, p.Power(p.Sum((a, b_)), -1))), p.Power(p.Product((a, b_)), -1), p.Sum((p.Power(a, -1), p.Power(b_, -1))), p.Power(a, -2),
+             p.Product((p.Power(a, -1), b_)), p.Power(p.Sum((a, 1)), 0.5), p.Power(a, x), p.Power(x, a), p.Power(x, p.Product((-1, a))), p.Sum((x, p.Power(CSE(p.Sum((a, b_)), "s"), -1))),
+             p.Product((CSE(p.Power(a, -1), "r"), CSE(p.Power(a, -1), "r"), x)), p.Call(sq, (p.Sum((a, b_)),)), p.Product((x, p.Call(sq, (p.Product((a, 2)),)))), p.Power(p.Power(a, 2), -1),
+             p.Sum((p.Power(a, -1.0), x)), p.Power(p.Sum((a, p.Product((2, b_)))), -1), p.Product((2, p.Power(b_, -1))), p.Sum((1, p.Power(a, -1))), p.Power(a, 2), p.Product((x, a, b_)),
+             p.Sum((p.Product((x, a)), p.Power(b_, -1)))]
+    grid_ = [dict(a=a_, b=b2, x=xv) for a_ in (1, 2, 3, 4) for b2 in (1, 2, 3, 4) for xv in (0.5, 2.25)]
+    parts = [HEADER]
+    metas = []
+    for i, e in enumerate(exprs):
+        r = outcome.run(lambda: (lambda m: (m(e), list(m.cse_name_list)))(CCodeMapper()))
+        b.case(("emit", repr(e)), sample=dict(expr=repr(e)))
+        if r[0] != "val":
+            b.fail(Failure("mixed-integer-double", f"what=emit-raised expr={e!r}", dict(kind="mixed", exprs=[repr(e)]), expected="C text", actual=outcome.describe(r)[:150], functions=["CCodeMapper"]))
+            continue
+        text, decls = r[1]
+        parts.append(f"static double case_{i}(ll a, ll b, double x) {{")
+        for n, rhs in decls:
+            parts.append(f"  double {n} = {rhs};")
+        parts.append(f"  return {text};\n}}")
+        metas.append((i, e, text))
+    parts.append("int main(void) {\n  for (ll a = 1; a <= 4; ++a) for (ll b = 1; b <= 4; ++b) for (int k = 0; k < 2; ++k) { double x = k ? 2.25 : 0.5;")
+    for i, e, text in metas:
+        parts.append(f'    printf("{i} %lld %lld %d %.17g\\n", a, b, k, case_{i}(a, b, x));')
+    parts.append("  }\n  return 0;\n}")
+    work = tempfile.mkdtemp(prefix="c14m_", dir=os.environ.get("VERIF_SCRATCH") or ("/dev/shm" if os.path.isdir("/dev/shm") else None))
+    try:
+        out, err = compile_and_run("\n".join(parts), work, "mixed")
+    finally:
+        shutil.rmtree(work, ignore_errors=True)
+    if out is None:
+        b.case("compile")
+        b.fail(Failure("mixed-integer-double", "what=c-does-not-compile", dict(kind="mixed", exprs=[repr(e) for _, e, _ in metas]), expected="a C program", actual=err[-300:], functions=["CCodeMapper"]))
+        return b
+    got = {}
+    for line in out.splitlines():
+        i, a_, b2, k, v = line.split()
+        got[(int(i), int(a_), int(b2), int(k))] = float(v)
+    for i, e, text in metas:
+        for env in grid_:
+            want = outcome.run(lambda: EvaluationMapper(dict(env, sqrt=math.sqrt))(e))
+            key = (i, env["a"], env["b"], 1 if env["x"] == 2.25 else 0)
+            b.case(("value", i, key[1:]), nontrivial=True)
+            if want[0] != "val":
+                continue
+            g_ = got.get(key)
+            if g_ is None or not math.isclose(g_, float(want[1]), rel_tol=1e-12, abs_tol=1e-12):
+                b.fail(Failure("mixed-integer-double", f"what=value-differs text={text!r} expr={e!r}"[:400], dict(kind="mixed", exprs=[repr(e)]), expected=f"{want[1]!r} at {env}", actual=repr(g_), functions=["CCodeMapper.map_power"]))
+                break
+    return b
+
+
 def bounded(tier, seed, procs):
-    return [b_programs(tier, seed, "int"), b_systematic(tier), b_programs(tier, seed, "double"), b_cse(tier, seed), b_branching(tier, seed), b_mixin(tier, seed)]
+    return [b_programs(tier, seed, "int"), b_systematic(tier), b_programs(tier, seed, "double"), b_cse(tier, seed), b_branching(tier, seed), b_mixin(tier, seed), b_mixed_types(tier)]
 
 
 def proof_jobs(tier):
